@@ -283,6 +283,19 @@ def xfer(index, rep):
         T = (it.to_rat(retire) + b1) if dairy_fn else Rat.const(0)   # what a dairy animal of the species stored this month
         add = it.to_rat(step[0].args[2])
         want_add = b0 if milk_type else b0 + T
+        if add != want_add:
+            # the hand-over may reach the receiving herd through state kept on the herd objects (set by a method of the species class that
+            # the month loop calls on another herd) instead of the per-species table this rule follows: no verdict either way
+            from .rat import K as _K6
+            via = sorted({a_.path[1] for a_ in (add - b0).atoms() if isinstance(a_, _K6) and len(a_.path) == 2 and a_.path[0] == "elem"})
+            sp_methods = index.methods(ANIM, "AnimalSpecies")
+            loop_calls = {c_.func.attr for c_ in ast.walk(ml) if isinstance(c_, ast.Call) and isinstance(c_.func, ast.Attribute)}
+            set_by = sorted({m_ for m_, f_ in sp_methods.items() if m_ in loop_calls and m_ != "__init__" for n_ in ast.walk(f_)
+                             if isinstance(n_, ast.Attribute) and isinstance(n_.ctx, ast.Store) and n_.attr in via
+                             and not (isinstance(n_.value, ast.Name) and n_.value.id == "self")})
+            if via and set_by:
+                raise AnalysisError(f"month loop outside the analysed fragment: the animals added to a herd are read from its attribute(s) {via}, "
+                                    f"which AnimalSpecies.{', '.join(set_by)} sets on another herd object")
         ov.leaf("transfer out of a dairy herd = retirements + surviving male calves; the meat herd receives exactly that (+1 coefficient)",
                 add == want_add, "the animals added to a meat herd are not its own births + (retiring dairy animals + surviving male calves) of its "
                 "species, or a dairy herd's additive term is not its own births", dec, detail=f"additive {add}; expected {want_add}")
